@@ -27,8 +27,9 @@ pub fn dash_path(path: &Path, dash_array: &[f32], mut dash_offset: f32) -> Path 
         total_dash_length *= 2.;
     }
 
-    // The dash length must be more than zero.
-    if !(total_dash_length > 0.) {
+    // The dash length must be more than zero, and finite: with an infinite period (entries so
+    // large that their sum overflows) the offset can not be reduced and the loop below never ends
+    if !(total_dash_length > 0.) || total_dash_length.is_infinite() {
         return dashed.finish();
     }
 
